@@ -29,7 +29,14 @@ def rat_to_lin(r, op, positive):
         if poly_sign_positive(-d, positive):
             n = -n
         else:
-            raise Undecided("sign of denominator %r unknown" % (d,))
+            dl = d.linear()
+            if dl is None:
+                raise Undecided("sign of denominator %r unknown" % (d,))
+            # case split on the sign of an affine denominator (d == 0 is a run-time division error, not a row)
+            one = Poly.const(1)
+            pos_case = f_and(rat_to_lin(Rat(d, one), ">", positive), rat_to_lin(Rat(n, one), op, positive))
+            neg_case = f_and(rat_to_lin(Rat(d, one), "<", positive), rat_to_lin(Rat(-n, one), op, positive))
+            return f_or(pos_case, neg_case)
     # divide out common positive monomial factors so that e.g. (p+n)*w^-1 style numerators are linear
     lin = n.linear()
     if lin is None:
